@@ -255,11 +255,29 @@ class C08:
                             'sd': cc.get('sd') or [], 'multi': cc.get('multi', 0), 'again': cc.get('out')}
             except Exception as e:      # tables incomplete -> the judge answers agree-code 4
                 st['cl'] = {'labels': [], 'hull': [], 'scores': [], 'sd': [], 'multi': 0, 'again': None, 'err': type(e).__name__}
+        # the values flowing between the stages must still be what the stages were given: a stage that rewrites one of its
+        # arguments in place corrupts every later consumer of the same simplification (demos map the same (reduced, removed)
+        # more than once: add_points_even, several detectors).  Snapshots are taken before the last stage and compared after it,
+        # and the mapping is asked twice (added after the seeded changes C08-r2m3 / C08-r3m1).
+        snap = [np.array(a, copy=True) for a in (pts, reduced, removed, k3)]
         r = call(rdp.mapping, k3, reduced, removed)
         if r[0] != 'ok':
             st['exc'] = 'mapping: ' + str(r[1])
             return c
         st['out'] = _nats(r[1])
+        for name, before, after in zip(('points', 'reduced', 'removed', 'filtered knees'), snap, (pts, reduced, removed, k3)):
+            try:
+                same = (np.asarray(after).shape == before.shape) and bool(np.array_equal(np.asarray(after), before, equal_nan=True))
+            except Exception:
+                same = False
+            if not same:
+                st['out'] = None
+                st['exc'] = 'mapping: rewrote its argument `%s` in place' % name
+                return c
+        r2 = call(rdp.mapping, k3, reduced, removed)
+        if r2[0] != 'ok' or _nats(r2[1]) != st['out']:
+            st['out'] = None
+            st['exc'] = 'mapping: a second mapping of the same knees against the same simplification differs from the first'
         return c
 
     def emit(self, c):
